@@ -18,7 +18,10 @@ RULE = (
     "policy, defaults); instances are built from hint-directed recipes (missing optionals by omission; Duration/unit/"
     "quantity also supplied as Python objects). Oracle per valid instance o: parse_raw(bytes(o)) == o, parse_raw(json) "
     "== o, parse_raw(yaml) == o, parse_obj(json_dict) == o, second trip equals the first, bytes identical for set-free "
-    "instances, constants present with their value, wrong constants on input are ignored. Non-trivial = instance with "
+    "instances, constants present with their value, wrong constants on input are ignored; the bytes and YAML forms are "
+    "also written to a file and read with parse_file. Values include long prose (line folding), unicode line breaks, "
+    "SIValue / NumValue given as string, number, dict and object, explicit None for required fields, improper numbers. "
+    "Shard units: every name of the unit registry as PintUnit and in PintQuantity(magnitude, unit) (exhaustive). Non-trivial = instance with "
     ">=1 of {Duration, unit, quantity, nested object, list, alias, non-ASCII, long float}; distinct by (schema, "
     "populated keys, value kinds)"
 )
